@@ -62,6 +62,10 @@ class InjectedFault(Exception):
     """Raised by the simulator in the interior of a processing unit."""
 
 
+class StepCap(Exception):
+    """Raised (persistently, at every further line event) once a traced attempt exceeds the step cap."""
+
+
 EXC_CLASSES = {'ValueError': ValueError, 'KeyError': KeyError, 'RuntimeError': RuntimeError,
                'AssertionError': AssertionError, 'IndexError': IndexError,
                'InjectedFault': InjectedFault}
@@ -124,10 +128,11 @@ class FakeSignal:
     ``count_all`` traces every attempt without firing (to measure attempt lengths)."""
     SIGALRM = 14
 
-    def __init__(self, run, plan=None, count_all=False):
+    def __init__(self, run, plan=None, count_all=False, line_cap=None):
         self.run = run
         self.plan = plan or {}
         self.count_all = count_all
+        self.line_cap = line_cap
         self.handler = None
         self.armed = False
         self.lines = 0
@@ -163,6 +168,9 @@ class FakeSignal:
         def local(frame, event, arg):
             if event == 'line':
                 fs.lines += 1
+                if fs.line_cap and fs.lines > fs.line_cap:
+                    run.step_capped = True
+                    raise StepCap(f'attempt exceeded {fs.line_cap} line events')
                 if fs.lines == fs.k:
                     code = frame.f_code
                     run.alarm_fired.append({'tx': tx, 'attempt': att, 'k': fs.k,
@@ -214,6 +222,7 @@ class Run:
         self.fasta = None
         self.table = None
         self.fasta_exists = None
+        self.step_capped = False
 
 
 DEFAULT_CONFIG = {
@@ -301,7 +310,9 @@ def parse_table(path):
 
 class Seams:
     """Context manager installing and removing every seam for one execution."""
-    def __init__(self, run, sched, faults, alarm_plan, count_units, count_attempts, skip_units):
+    def __init__(self, run, sched, faults, alarm_plan, count_units, count_attempts, skip_units,
+                 line_cap=None):
+        self.line_cap = line_cap
         self.run = run
         self.sched = sched
         self.faults = faults or {}
@@ -318,7 +329,7 @@ class Seams:
         gtfptr.GENE_DICT_CACHE_SIZE = sched.get('gene_cache', ORIG['gene_cache'])
         gtfptr.TX_DICT_CACHE_SIZE = sched.get('tx_cache', ORIG['tx_cache'])
         cvp.ParallelPool = lambda ncpus: SimPool(run, ncpus)
-        common_mod.signal = FakeSignal(run, self.alarm_plan, self.count_attempts)
+        common_mod.signal = FakeSignal(run, self.alarm_plan, self.count_attempts, self.line_cap)
 
         class Tally(ORIG['TallyTable']):
             def __init__(self, logger):
@@ -449,7 +460,7 @@ class Seams:
 
 
 def run_callvariant(ref, files, out_fasta, config, sched=None, faults=None, alarm_plan=None,
-                    count_units=False, count_attempts=False, skip_units=None):
+                    count_units=False, count_attempts=False, skip_units=None, line_cap=None):
     """Execute the real ``call_variant_peptide`` once.  Never raises for product exceptions."""
     run = Run()
     sched = sched or {}
@@ -459,7 +470,7 @@ def run_callvariant(ref, files, out_fasta, config, sched=None, faults=None, alar
         if p.exists():
             p.unlink()
     args = make_args(ref, files, out_fasta, config)
-    with Seams(run, sched, faults, alarm_plan, count_units, count_attempts, skip_units):
+    with Seams(run, sched, faults, alarm_plan, count_units, count_attempts, skip_units, line_cap):
         try:
             with contextlib.redirect_stdout(io.StringIO()), contextlib.redirect_stderr(io.StringIO()):
                 cvp.call_variant_peptide(args)
